@@ -692,7 +692,6 @@ theorem importHit_eq (reg : Registry) (linked : List Nat) (fuel : Nat) (i : Stmt
       else (none, seen) := by
   unfold importHit importMatches
   simp only [carries_iff, afterPrefix_eq, contains_colon, Bool.not_not]
-  rfl
 
 theorem fgImports_inert (reg : Registry) (linked : List Nat) (nm : String) : ∀ (fuel : Nat) (l : List Stmt) (seen : List String),
     (∀ i ∈ l, importMatches nm i = false) → fgImports reg linked fuel l nm seen = (none, seen)
